@@ -10,6 +10,9 @@ from mirlib import (callee_path, callee_decl_path, callee_ty_args, op_place, op_
                     local_defs, single_def, trace_value, fmt_span, place_str, op_str)
 
 
+USIZE_MAX = (1 << 64) - 1
+
+
 class SrcFinding:
     def __init__(self, props, rule, where, msg, key):
         self.props = props
@@ -199,3 +202,1233 @@ def run_truc_rules(ctx, crate, label):
     for name, fn in sorted(globals().items()):
         if name.startswith('truc_rule_') and callable(fn):
             fn(ctx, crate)
+
+
+# ==========================================================================
+# rules over crate `truc`
+# ==========================================================================
+
+T = 'truc::record::definition::'
+STRATEGY_MOD = 'truc::record::definition::builder::native::variant'
+NDD = T + 'NativeDatumDetails'
+GB = T + 'builder::generic::GenericRecordDefinitionBuilder::<D>::'
+NB = T + 'builder::native::NativeRecordDefinitionBuilder::<R>::'
+DDC = T + 'DatumDefinitionCollection::<D>::'
+
+
+def in_strategy_module(b):
+    return b.module == STRATEGY_MOD or (b.module or '').startswith(STRATEGY_MOD + '::')
+
+
+def writes_field(st, adt, name):
+    """Is the statement an assignment whose place projects to field `name` of `adt`?"""
+    if st['k'] != 'assign':
+        return False
+    for e in st['place']['p']:
+        if isinstance(e, dict) and e.get('adt') == adt and e.get('name') == name:
+            return True
+    return False
+
+
+def body_and_closures(crate, path):
+    b = crate.body(path)
+    return ([b] if b else []) + crate.closures_of(path)
+
+
+# -- C19 -------------------------------------------------------------------
+
+NONDET_TYPES = re.compile(r'(std::collections::hash|hashbrown::|RandomState|HashMap|HashSet|std::time::|std::thread::|rand::|rand_core::|rand_chacha::|getrandom::)')
+NONDET_CALLS = re.compile(r'^(std::env::(var|vars|var_os|vars_os|args|args_os|temp_dir|current_dir)|std::time::|std::thread::|std::process::id|rand|getrandom|std::collections::hash|hashbrown::|itertools::Itertools::(counts|counts_by|into_group_map|into_group_map_by|into_grouping_map|into_grouping_map_by|unique|unique_by|duplicates|duplicates_by|all_unique)|std::hash::random|core::ptr::[a-z_:<>* A-Za-z]*::(addr|expose_provenance|expose_addr)|std::fs::read_dir|std::sys)')
+
+
+def scan_nondeterminism(ctx, crate, rule='N-DET', props=('C19',)):
+    n_bodies = n_calls = 0
+    for b in crate.bodies:
+        n_bodies += 1
+        for i, l in enumerate(b.locals):
+            if NONDET_TYPES.search(l['ty'] or ''):
+                ctx.add(list(props), rule, b.key, 'a value of type `%s` is used (hash-ordered / random / time / thread state makes the output depend on more than the request history)' % l['ty'], key='%s|type|%s' % (b.key, NONDET_TYPES.search(l['ty']).group(1)))
+                break
+        for bb, t in b.calls():
+            n_calls += 1
+            for p in {callee_path(t), callee_decl_path(t)}:
+                if p and NONDET_CALLS.search(p):
+                    ctx.add(list(props), rule, b.key, 'call to `%s` at %s: its result is not a function of the request history' % (p, fmt_span(t['span'])), key='%s|call|%s' % (b.key, p))
+            for ta in callee_ty_args(t):
+                if NONDET_TYPES.search(ta or ''):
+                    ctx.add(list(props), rule, b.key, 'call instantiated with `%s` at %s' % (ta, fmt_span(t['span'])), key='%s|targ|%s' % (b.key, NONDET_TYPES.search(ta).group(1)))
+        for _, _, st in b.statements():
+            if st['k'] == 'assign' and st['rv']['k'] == 'cast' and st['rv']['ck'] in ('PointerExposeProvenance', 'PointerExposeAddress'):
+                ctx.add(list(props), rule, b.key, 'pointer-to-integer cast at %s (addresses differ between runs)' % fmt_span(st.get('span')), key='%s|ptr2int' % b.key)
+            if st['k'] == 'assign' and st['rv']['k'] == 'cast' and st['rv']['ck'] == 'Transmute' and st['rv']['ty'] in ('usize', 'u64') and not (st.get('span') or {}).get('exp'):
+                src = op_place(st['rv']['op'])
+                if src and (src.get('ty') or '').startswith(('*', '&')):
+                    ctx.add(list(props), rule, b.key, 'pointer transmuted to an integer at %s' % fmt_span(st.get('span')), key='%s|ptr2int' % b.key)
+    for adt in crate.adts.values():
+        for v in adt['variants']:
+            for f in v['fields']:
+                if NONDET_TYPES.search(f['ty'] or ''):
+                    ctx.add(list(props), rule, adt['path'], 'field `%s: %s`' % (f['name'], f['ty']), key='%s|field|%s' % (adt['path'], f['name']))
+    return n_bodies, n_calls
+
+
+def truc_rule_ndet(ctx, crate):
+    nb, nc = scan_nondeterminism(ctx, crate)
+    ctx.inst('N-DET', 'scanned %d non-test bodies, %d call sites, %d type definitions of crate truc: locals, fields, callees and generic arguments' % (nb, nc, len(crate.adts)))
+    if nb < 300:
+        ctx.add(['C19'], 'N-DET-FLOOR', None, 'only %d bodies of truc were scanned (floor 300): facts incomplete' % nb, key='floor')
+
+
+# -- C18 -------------------------------------------------------------------
+
+HOST_QUERIES = {'core::mem::size_of', 'core::mem::align_of', 'core::mem::size_of_val', 'core::mem::align_of_val',
+                'core::any::type_name', 'core::any::type_name_of_val', 'core::alloc::layout::Layout::new',
+                'core::alloc::layout::Layout::for_value', 'core::mem::needs_drop'}
+HOST_ALLOWED = {
+    '<truc::record::type_resolver::HostTypeResolver as truc::record::type_resolver::TypeResolver>::type_info': 'the host resolver itself',
+    'truc::record::type_resolver::StaticTypeResolver::add_type': 'table registration',
+    'truc::record::type_resolver::StaticTypeResolver::add_type_allow_uninit': 'table registration',
+    'truc::record::type_name::truc_type_name': 'the name printer',
+}
+
+
+def truc_rule_host(ctx, crate):
+    for b in crate.bodies:
+        for bb, t in b.calls():
+            p = callee_path(t)
+            if p in HOST_QUERIES:
+                owner = b.path
+                tys = callee_ty_args(t)
+                if owner in HOST_ALLOWED:
+                    ctx.inst('H-HOST', '%s::<%s> in %s (%s)' % (p, ','.join(tys), owner, HOST_ALLOWED[owner]))
+                elif owner == T + 'RecordDefinition::<truc::record::definition::NativeDatumDetails>::max_type_align' and p == 'core::mem::align_of' and tys == ['()']:
+                    ctx.inst('H-HOST', 'align_of::<()> in max_type_align (neutral element for an empty definition)')
+                else:
+                    ctx.add(['C18'], 'H-HOST', owner, '`%s::<%s>` is called at %s: the host\'s own layout leaks into the definition instead of the resolver\'s answer' % (p, ','.join(tys), fmt_span(t['span'])), key='%s|%s' % (owner, p))
+    ctx.floor(['C18'], 'H-HOST', 8)
+
+
+def origin_class(crate, b, defs, op, depth=0):
+    """Classify where a value comes from (H-FLOW). Returns a set of tags."""
+    if depth > 12:
+        return {'deep'}
+    st = trace_value(b, defs, op)
+    t = st[-1]
+    if t[0] == 'const':
+        c = t[1]
+        if 'int' in c:
+            return {'const:%s' % c['int']}
+        return {'const'}
+    if t[0] == 'param':
+        return {'param:%d' % t[1]}
+    if t[0] == 'call':
+        c = t[1]
+        p = callee_path(c, resolved=False) or ''
+        rp = callee_path(c) or ''
+        if p == 'truc::record::type_resolver::TypeResolver::type_info':
+            return {'resolver.type_info'}
+        if p == 'truc::record::type_resolver::TypeResolver::dynamic_type_info':
+            return {'resolver.dynamic_type_info'}
+        if rp in ('<truc::record::type_resolver::TypeInfo as core::clone::Clone>::clone',) or p == 'core::clone::Clone::clone':
+            return {'clone(%s)' % ','.join(sorted(origin_class(crate, b, defs, c['args'][0], depth + 1)))}
+        if p in (NDD + '::type_info', NDD + '::allow_uninit', T + 'DatumDefinition::<D>::details', T + 'DatumDefinition::<D>::name'):
+            return {'%s(%s)' % (p.split('::')[-1], ','.join(sorted(origin_class(crate, b, defs, c['args'][0], depth + 1))))}
+        if p == 'core::option::Option::<T>::unwrap_or':
+            return {'unwrap_or(%s;%s)' % (','.join(sorted(origin_class(crate, b, defs, c['args'][0], depth + 1))), ','.join(sorted(origin_class(crate, b, defs, c['args'][1], depth + 1))))}
+        return {'call:%s' % rp}
+    if t[0] == 'place':
+        pl = t[1]
+        names = [e.get('name') if isinstance(e, dict) else e for e in pl['p']]
+        base = origin_class(crate, b, defs, {'copy': {'l': pl['l'], 'p': [], 'ty': None}}, depth + 1) if not (1 <= pl['l'] <= b.arg_count) else {'param:%d' % pl['l']}
+        return {'%s.%s' % (x, '.'.join(str(n) for n in names)) for x in base}
+    if t[0] == 'multi':
+        # a local assigned several times (field overwrites of `target_info`): union of all definitions
+        out = set()
+        for d in defs.get(t[1], []):
+            if d[0] == 'call':
+                out |= origin_class(crate, b, defs, {'copy': {'l': -1, 'p': []}}, 99) if False else {'call:%s' % (callee_path(d[2], resolved=False))}
+            else:
+                rv = d[3]['rv']
+                if rv['k'] == 'use':
+                    out |= origin_class(crate, b, defs, rv['op'], depth + 1)
+                else:
+                    out.add('rv:%s' % rv['k'])
+        return out
+    if t[0] == 'rv':
+        return {'rv:%s' % t[1]['k']}
+    if t[0] == 'ref':
+        return {'ref'}
+    return {str(t[0])}
+
+
+def truc_rule_flow(ctx, crate):
+    """H-FLOW + W1b: every NativeDatumDetails built outside tests gets offset = usize::MAX and its
+    type information / flag only from the resolver, the override or the copied datum."""
+    entry = {'add_datum': {'type_info': {'call:truc::record::type_resolver::TypeResolver::type_info', 'resolver.type_info'}, 'allow_uninit': {'const:0'}},
+             'add_datum_allow_uninit': {'type_info': {'resolver.type_info'}, 'allow_uninit': {'const:1'}},
+             'add_datum_override': None, 'add_dynamic_datum': None, 'copy_datum': None}
+    for b in crate.bodies:
+        defs = None
+        for bb, si, st in b.statements():
+            if st['k'] == 'assign' and st['rv']['k'] == 'aggregate' and st['rv'].get('adt') == NDD:
+                defs = defs or local_defs(b)
+                rv = st['rv']
+                names = rv['field_names']
+                vals = dict(zip(names, rv['fields']))
+                where = fmt_span(st.get('span'))
+                name = b.path[len(NB):] if b.path.startswith(NB) else None
+                derive_new = b.path == NDD + '::new'
+                if derive_new:
+                    continue   # the derive-new constructor: who calls it is checked below
+                if name not in entry:
+                    ctx.add(['C03', 'C18'], 'W1b', b.key, 'NativeDatumDetails is constructed at %s, outside the builder entry points' % where, key='%s|construct' % b.key)
+                    continue
+                ctx.inst('W1b', '%s builds NativeDatumDetails at %s' % (name, where))
+                off = op_int(vals['offset'])
+                if off != USIZE_MAX:
+                    ctx.add(['C03', 'C13'], 'W1b', b.key, 'a new datum gets offset %s instead of the placeholder usize::MAX at %s: it is "placed" without a strategy having run' % (op_str(vals['offset']), where), key='%s|offset' % b.key)
+                ti = origin_class(crate, b, defs, vals['type_info'])
+                au = origin_class(crate, b, defs, vals['allow_uninit'])
+                ctx.inst('H-FLOW', '%s: type_info <- %s ; allow_uninit <- %s' % (name, sorted(ti), sorted(au)))
+                ok_ti = all(x.startswith(('resolver.type_info', 'resolver.dynamic_type_info', 'clone(type_info(details(param:2', 'param:3.')) or
+                            x.startswith('call:truc::record::type_resolver::TypeResolver') for x in ti)
+                if name == 'add_datum_override':
+                    # field overwrites must come from the override parameter (param 3)
+                    for blk in b.blocks:
+                        for s2 in blk['stmts']:
+                            if s2['k'] == 'assign' and s2['place']['p'] and any(isinstance(e, dict) and e.get('adt') == 'truc::record::type_resolver::TypeInfo' for e in s2['place']['p']):
+                                src = origin_class(crate, b, defs, s2['rv']['op']) if s2['rv']['k'] == 'use' else {'rv'}
+                                fname = [e.get('name') for e in s2['place']['p'] if isinstance(e, dict) and e.get('adt') == 'truc::record::type_resolver::TypeInfo'][0]
+                                want = {'name': 'type_name', 'size': 'size', 'align': 'align'}.get(fname)
+                                if not all(x.startswith('param:3.%s' % want) or x.startswith('param:3.') and ('.%s.' % want) in x + '.' for x in src):
+                                    ctx.add(['C18'], 'H-FLOW', b.key, 'TypeInfo.%s is overwritten from %s at %s, not from the override\'s `%s`' % (fname, sorted(src), fmt_span(s2.get('span')), want), key='%s|override.%s' % (b.key, fname))
+                                else:
+                                    ctx.inst('H-FLOW', 'add_datum_override: TypeInfo.%s <- override.%s' % (fname, want))
+                if not ok_ti:
+                    ctx.add(['C18'], 'H-FLOW', b.key, 'the type information of a new datum flows from %s at %s, not from the resolver / the override / the copied datum' % (sorted(ti), where), key='%s|type_info' % b.key)
+                want_au = {'add_datum': lambda x: x == 'const:0', 'add_datum_allow_uninit': lambda x: x == 'const:1',
+                           'add_datum_override': lambda x: x.startswith('unwrap_or(param:3.allow_uninit') and x.endswith(';const:0)'),
+                           'add_dynamic_datum': lambda x: x.startswith('resolver.dynamic_type_info') and x.endswith('allow_uninit'),
+                           'copy_datum': lambda x: x.startswith('allow_uninit(details(param:2')}[name]
+                if not all(want_au(x) for x in au):
+                    ctx.add(['C18', 'C11'], 'H-FLOW', b.key, 'the may-be-uninitialised flag of a new datum flows from %s at %s' % (sorted(au), where), key='%s|allow_uninit' % b.key)
+        for bb, t in b.calls():
+            if callee_path(t) == NDD + '::new':
+                ctx.add(['C03', 'C18'], 'W1b', b.key, 'NativeDatumDetails::new is called from non-test code at %s (offset and type information chosen by the caller)' % fmt_span(t['span']), key='%s|new' % b.key)
+    ctx.floor(['C03', 'C18'], 'W1b', 5)
+    ctx.floor(['C18'], 'H-FLOW', 5)
+
+
+def truc_rule_table(ctx, crate):
+    """H-TABLE / K-NORM: StaticTypeResolver stores and returns entries unmodified, keyed by one normaliser."""
+    R = 'truc::record::type_resolver::'
+    TN = 'truc::record::type_name::'
+    # K-NORM: truc_type_name = truc_dynamic_type_name(type_name::<T>())
+    b = crate.body(TN + 'truc_type_name')
+    if b is None:
+        ctx.add(['C17'], 'K-NORM', TN + 'truc_type_name', 'function not found (anchor lost)', key='anchor')
+    else:
+        defs = local_defs(b)
+        st = trace_value(b, defs, {'copy': {'l': 0, 'p': [], 'ty': None}})
+        ok = st[-1][0] == 'call' and callee_path(st[-1][1]) == TN + 'truc_dynamic_type_name'
+        if ok:
+            a = trace_value(b, defs, st[-1][1]['args'][0])
+            ok = a[-1][0] == 'call' and callee_path(a[-1][1]) == 'core::any::type_name' and callee_ty_args(a[-1][1]) == ['T']
+        if not ok:
+            ctx.add(['C17'], 'K-NORM', b.key, 'truc_type_name::<T>() is not truc_dynamic_type_name(type_name::<T>()): typed and dynamic names are normalised differently', key='typed-vs-dynamic')
+        else:
+            ctx.inst('K-NORM', 'truc_type_name::<T>() = truc_dynamic_type_name(type_name::<T>())')
+    norm = {TN + 'truc_type_name', TN + 'truc_dynamic_type_name'}
+    MAP_OPS = ('alloc::collections::btree::map::BTreeMap::<K, V, A>::entry', 'alloc::collections::btree::map::BTreeMap::<K, V, A>::get',
+               'alloc::collections::btree::map::BTreeMap::<K, V, A>::insert', 'alloc::collections::btree::map::BTreeMap::<K, V, A>::get_mut',
+               'alloc::collections::btree::map::BTreeMap::<K, V, A>::contains_key', 'alloc::collections::btree::map::BTreeMap::<K, V, A>::remove')
+    for b in crate.bodies:
+        if not (b.module or '').startswith('truc::record::type_resolver'):
+            continue
+        defs = None
+        for bb, t in b.calls():
+            p = callee_path(t)
+            if p in MAP_OPS:
+                recv = trace_value(b, local_defs(b), t['args'][0])
+                defs = defs or local_defs(b)
+                # key operand (by value or by reference)
+                key = t['args'][1]
+                st = trace_value(b, defs, key)
+                term = st[-1]
+                src = None
+                if term[0] == 'ref' and not term[2]['p']:
+                    st = trace_value(b, defs, {'copy': term[2]})
+                    term = st[-1]
+                if term[0] == 'call':
+                    src = callee_path(term[1])
+                    if src in ('<alloc::string::String as core::clone::Clone>::clone', 'core::clone::Clone::clone'):
+                        a0 = trace_value(b, defs, term[1]['args'][0])
+                        if a0[-1][0] == 'ref' and not a0[-1][2]['p']:
+                            a0 = trace_value(b, defs, {'copy': a0[-1][2]})
+                        src = callee_path(a0[-1][1]) if a0[-1][0] == 'call' else None
+                where = fmt_span(t['span'])
+                if src in norm:
+                    ctx.inst('K-NORM', '%s: key of %s is %s(..)' % (b.path.split('::')[-1], p.split('::')[-1], src.split('::')[-1]))
+                else:
+                    ctx.add(['C17', 'C18'], 'K-NORM', b.key, 'the type table is accessed (%s) at %s with a key that does not come from the normaliser (%s)' % (p.split('::')[-1], where, src or term[0]), key='%s|%s' % (b.key, p.split('::')[-1]))
+    ctx.floor(['C17'], 'K-NORM', 5)
+    # H-TABLE: lookups return the stored entry (clone of the BTreeMap::get result, no field write)
+    for path, field in (('<truc::record::type_resolver::StaticTypeResolver as truc::record::type_resolver::TypeResolver>::type_info', 'info'),
+                        ('<truc::record::type_resolver::StaticTypeResolver as truc::record::type_resolver::TypeResolver>::dynamic_type_info', None)):
+        b = crate.body(path)
+        if b is None:
+            ctx.add(['C18'], 'H-TABLE', path, 'function not found (anchor lost)', key='anchor|%s' % path)
+            continue
+        defs = local_defs(b)
+        st = trace_value(b, defs, {'copy': {'l': 0, 'p': [], 'ty': None}})
+        ok = st[-1][0] == 'call' and (callee_path(st[-1][1], resolved=False) == 'core::clone::Clone::clone')
+        via = None
+        if ok:
+            a = trace_value(b, defs, st[-1][1]['args'][0])
+            t2 = a[-1]
+            # &(*x).info  or  &(*x)
+            if t2[0] == 'ref':
+                names = [e.get('name') for e in t2[2]['p'] if isinstance(e, dict) and 'name' in e]
+                if (field and names != [field]) or (not field and names):
+                    ok = False
+                a2 = trace_value(b, defs, {'copy': {'l': t2[2]['l'], 'p': [], 'ty': None}})
+                t3 = a2[-1]
+            else:
+                t3 = t2
+            if ok and t3[0] == 'call' and callee_path(t3[1]).startswith('core::option::Option::<T>::unwrap_or_else'):
+                a3 = trace_value(b, defs, t3[1]['args'][0])
+                ok = a3[-1][0] == 'call' and callee_path(a3[-1][1]) == 'alloc::collections::btree::map::BTreeMap::<K, V, A>::get'
+            elif ok and t3[0] == 'call' and callee_path(t3[1]) == 'alloc::collections::btree::map::BTreeMap::<K, V, A>::get':
+                pass
+            else:
+                ok = False
+        wr = [s for _, _, s in b.statements() if s['k'] == 'assign' and any(isinstance(e, dict) and e.get('adt', '').startswith(R) for e in s['place']['p'])]
+        if not ok or wr:
+            ctx.add(['C18'], 'H-TABLE', b.key, 'the lookup does not return an unmodified clone of the stored entry', key='%s|lookup' % path)
+        else:
+            ctx.inst('H-TABLE', '%s returns %sclone of the BTreeMap::get result' % (path.split('::')[-1], ('.%s.' % field) if field else '.'))
+    # registration stores {name: normalised name, size_of::<T>, align_of::<T>} and the right flag
+    for name, flag in (('add_type', 0), ('add_type_allow_uninit', 1)):
+        b = crate.body(R + 'StaticTypeResolver::' + name)
+        if b is None:
+            ctx.add(['C18'], 'H-TABLE', R + name, 'function not found (anchor lost)', key='anchor|%s' % name)
+            continue
+        defs = local_defs(b)
+        found = False
+        for _, _, s in b.statements():
+            if s['k'] == 'assign' and s['rv']['k'] == 'aggregate' and s['rv'].get('adt') == R + 'DynamicTypeInfo':
+                vals = dict(zip(s['rv']['field_names'], s['rv']['fields']))
+                fl = op_int(vals['allow_uninit'])
+                info = trace_value(b, defs, vals['info'])
+                okinfo = info[-1][0] == 'rv' and info[-1][1].get('adt') == R + 'TypeInfo'
+                if okinfo:
+                    iv = dict(zip(info[-1][1]['field_names'], info[-1][1]['fields']))
+                    sz = origin_class(crate, b, defs, iv['size'])
+                    al = origin_class(crate, b, defs, iv['align'])
+                    nm = origin_class(crate, b, defs, iv['name'])
+                    okinfo = sz == {'call:core::mem::size_of'} and al == {'call:core::mem::align_of'} and all('truc_type_name' in x for x in nm)
+                if fl != flag or not okinfo:
+                    ctx.add(['C18'], 'H-TABLE', b.key, '%s registers something else than {normalised name, size_of::<T>(), align_of::<T>()} with flag %d' % (name, flag), key='%s|register' % name)
+                else:
+                    found = True
+                    ctx.inst('H-TABLE', '%s registers {truc_type_name::<T>(), size_of::<T>(), align_of::<T>(), allow_uninit=%d}' % (name, flag))
+        if not found and not any(f.key.endswith('%s|register' % name) for f in ctx.findings):
+            ctx.add(['C18'], 'H-TABLE', b.key, '%s does not build a DynamicTypeInfo' % name, key='%s|register' % name)
+    # H-SERDE: TypeInfo / DynamicTypeInfo derive both directions, no serde attribute
+    for ty in ('TypeInfo', 'DynamicTypeInfo'):
+        adt = crate.adts.get(R + ty)
+        if adt is None:
+            ctx.add(['C18'], 'H-SERDE', R + ty, 'type not found (anchor lost)', key='anchor|%s' % ty)
+            continue
+        impls = [i for i in crate.impls if i.get('self_ty') == R + ty and i.get('trait') in ('serde_core::ser::Serialize', 'serde_core::de::Deserialize')]
+        dirs = {i['trait'].split('::')[-1] for i in impls}
+        derived = all(i['span']['exp'] for i in impls)
+        attrs = [a for a in adt.get('attrs', []) if 'serde' in a.lower() and 'derive' not in a.lower()]
+        if dirs != {'Serialize', 'Deserialize'} or not derived or attrs:
+            ctx.add(['C18'], 'H-SERDE', R + ty, '%s: serde impls %s (derived: %s), serde attributes: %s' % (ty, sorted(dirs), derived, attrs), key='%s|serde' % ty)
+        else:
+            ctx.inst('H-SERDE', '%s derives Serialize and Deserialize, no #[serde(..)] attribute' % ty)
+    ctx.floor(['C18'], 'H-TABLE', 4)
+    ctx.floor(['C18'], 'H-SERDE', 2)
+
+
+# -- C03: who writes offsets, and whose ------------------------------------
+
+def taint_ids(b, seeds):
+    """Flow-insensitive, type-filtered taint over a body. seeds: local -> set(labels).
+    Returns local -> set(labels). References returned by calls may alias the targets
+    of `&mut` arguments; values stored through `&mut` arguments taint those targets."""
+    taint = defaultdict(set)
+    points = defaultdict(set)         # local (reference) -> base locals it may refer to
+    for l, s in seeds.items():
+        taint[l] |= set(s)
+
+    def mentions(ty):
+        return ty is not None and ('DatumId' in ty or 'DatumDefinition' in ty or 'Gap' in ty or 'FittedDatum' in ty or 'InsertData' in ty or 'closure@' in ty)
+
+    def op_base(op):
+        p = op_place(op)
+        return p['l'] if p is not None else None
+
+    changed = True
+    rounds = 0
+    while changed and rounds < 60:
+        changed = False
+        rounds += 1
+
+        def add_t(l, s):
+            nonlocal changed
+            if l is None:
+                return
+            if not s <= taint[l]:
+                taint[l] |= s
+                changed = True
+
+        def add_through(l, s):
+            """a store through reference l: what it may point to is tainted"""
+            add_t(l, s)
+            for tgt in list(points[l]):
+                add_t(tgt, s)
+
+        def add_p(l, s):
+            nonlocal changed
+            if l is None:
+                return
+            if not s <= points[l]:
+                points[l] |= s
+                changed = True
+
+        for bb, blk in enumerate(b.blocks):
+            for st in blk['stmts']:
+                if st['k'] != 'assign':
+                    continue
+                dst = st['place']['l']
+                rv = st['rv']
+                srcs = []
+                if rv['k'] in ('use', 'cast', 'repeat'):
+                    srcs = [rv['op']]
+                elif rv['k'] in ('ref', 'rawptr', 'copy_for_deref', 'discr'):
+                    base = rv['place']['l']
+                    add_t(dst, taint[base])
+                    if rv['k'] in ('ref', 'rawptr') and (rv.get('bk') == 'mut' or rv.get('mut')):
+                        # only mutable borrows can be stored through
+                        add_p(dst, ({base} if not rv['place']['p'] or rv['place']['p'][0] != 'deref' else set()) | points[base])
+                    elif rv['k'] in ('ref', 'rawptr'):
+                        pass
+                    else:
+                        add_p(dst, points[base])
+                elif rv['k'] == 'aggregate':
+                    srcs = rv['fields']
+                elif rv['k'] in ('bin',):
+                    srcs = []
+                for op in srcs:
+                    sl = op_base(op)
+                    if sl is not None:
+                        add_t(dst, taint[sl])
+                        add_p(dst, points[sl])
+                # a store through a reference taints what it points to
+                if st['place']['p'] and st['place']['p'][0] == 'deref':
+                    add_through(dst, taint[dst])
+            t = blk['term']
+            if t['k'] == 'call':
+                args = [op_base(a) for a in t['args']]
+                tys = [(op_place(a) or {}).get('ty') for a in t['args']]
+                dst = t['dest']['l']
+                dty = t['dest'].get('ty')
+                u = set()
+                pts = set()
+                for a, ty in zip(args, tys):
+                    if a is None:
+                        continue
+                    if mentions(ty):
+                        u |= taint[a]
+                        pts |= points[a]
+                if mentions(dty):
+                    add_t(dst, u)
+                    # only values that contain references can alias their arguments
+                    if '&' in dty or "'_" in dty or 'closure@' in dty:
+                        add_p(dst, pts)
+                for a, ty in zip(args, tys):
+                    if a is not None and ty and ty.startswith('&mut') and mentions(ty):
+                        add_through(a, u)
+    return taint
+
+
+STRATEGY_SIG = ['alloc::vec::Vec<truc::record::definition::DatumId>'] * 3
+
+
+def truc_rule_offsets(ctx, crate):
+    """W1a/W1c (C03): offsets are written only in strategy code and only for ids being added."""
+    OFF_ADT = NDD
+    writers = {}     # body key -> list of (bb, stmt)
+    for b in crate.bodies:
+        for bb, si, st in b.statements():
+            if writes_field(st, OFF_ADT, 'offset'):
+                where = fmt_span(st.get('span'))
+                if not in_strategy_module(b):
+                    ctx.add(['C03'], 'W1a', b.key, 'the offset of a datum is assigned at %s, outside the variant-closing strategies (module %s)' % (where, b.module), key='%s|write' % b.key)
+                else:
+                    ctx.inst('W1a', '%s writes NativeDatumDetails.offset at %s' % (b.path.split('::')[-1], where))
+                    writers.setdefault(b.key, (b, []))[1].append((bb, st))
+    ctx.floor(['C03'], 'W1a', 3)
+
+    def id_operand_of_write(b, defs, st):
+        """the DatumId handed to DatumDefinitionCollection::get_mut for the definition being written"""
+        base = st['place']['l']
+        cur = {'copy': {'l': base, 'p': [], 'ty': None}}
+        for _ in range(12):
+            s = trace_value(b, defs, cur)
+            t = s[-1]
+            if t[0] != 'call':
+                return None
+            p = callee_path(t[1])
+            if p == DDC + 'get_mut':
+                return t[1]['args'][1]
+            if p in (T + 'DatumDefinition::<D>::details_mut', 'core::option::Option::<T>::unwrap_or_else', 'core::option::Option::<T>::unwrap',
+                     'core::option::Option::<T>::expect', 'core::ops::index::IndexMut::index_mut'):
+                cur = t[1]['args'][0]
+                continue
+            return None
+        return None
+
+    # helpers that write the offset of one of their parameters
+    helper = {}      # path -> param index carrying the id
+    for key, (b, sites) in writers.items():
+        fn = crate.fns.get(b.path, {})
+        ins = fn.get('inputs') or []
+        is_strategy = ins[:3] == STRATEGY_SIG and len(ins) == 4
+        defs = local_defs(b)
+        seeds = {1: {'OLD'}, 2: {'ADD'}, 3: {'REMOVE'}} if is_strategy else {i: {'P%d' % i} for i in range(1, b.arg_count + 1) if 'DatumId' in b.local_ty(i)}
+        taint = taint_ids(b, seeds)
+        for bb, st in sites:
+            idop = id_operand_of_write(b, defs, st)
+            where = fmt_span(st.get('span'))
+            if idop is None:
+                ctx.add(['C03'], 'W1c', b.key, 'cannot determine whose offset is written at %s (not reached through DatumDefinitionCollection::get_mut(id)): unanalysable, fail closed' % where, key='%s|whose' % b.key)
+                continue
+            labels = taint[op_place(idop)['l']]
+            if is_strategy:
+                ctx.inst('W1c', '%s: offset written for an id of provenance %s at %s' % (b.path.split('::')[-1], sorted(labels), where))
+                if 'OLD' in labels or 'REMOVE' in labels or 'ADD' not in labels:
+                    ctx.add(['C03'], 'W1c', b.key, 'the strategy assigns the offset of a datum whose id has provenance %s at %s: only data being added (provenance ADD) may be placed, a datum of an already closed variant must never move' % (sorted(labels), where), key='%s|provenance' % b.key)
+            else:
+                ps = sorted(int(x[1:]) for x in labels if x.startswith('P'))
+                if len(ps) != 1:
+                    ctx.add(['C03'], 'W1c', b.key, 'helper writes the offset of an id of unclear origin %s at %s' % (sorted(labels), where), key='%s|helper' % b.key)
+                else:
+                    helper[b.path] = ps[0]
+                    ctx.inst('W1c', 'helper %s writes the offset of its parameter %d' % (b.path.split('::')[-1], ps[0]))
+    # call sites of helpers: the id argument must be ADD
+    ncs = 0
+    for b in crate.bodies:
+        sites = [(bb, t) for bb, t in b.calls() if callee_path(t) in helper]
+        if not sites:
+            continue
+        fn = crate.fns.get(b.path, {})
+        ins = fn.get('inputs') or []
+        is_strategy = ins[:3] == STRATEGY_SIG and len(ins) == 4
+        if not in_strategy_module(b) or not is_strategy:
+            for bb, t in sites:
+                ctx.add(['C03'], 'W1c', b.key, 'offset-writing helper %s is called at %s from code that is not a variant-closing strategy' % (callee_path(t).split('::')[-1], fmt_span(t['span'])), key='%s|helper-call' % b.key)
+            continue
+        taint = taint_ids(b, {1: {'OLD'}, 2: {'ADD'}, 3: {'REMOVE'}})
+        for bb, t in sites:
+            ncs += 1
+            a = t['args'][helper[callee_path(t)] - 1]
+            labels = taint[op_place(a)['l']]
+            ctx.inst('W1c-call', '%s calls %s with an id of provenance %s at %s' % (b.path.split('::')[-1], callee_path(t).split('::')[-1], sorted(labels), fmt_span(t['span'])))
+            if 'OLD' in labels or 'REMOVE' in labels or 'ADD' not in labels:
+                ctx.add(['C03'], 'W1c', b.key, 'the strategy places (through %s) a datum whose id has provenance %s at %s: only data being added may be placed' % (callee_path(t).split('::')[-1], sorted(labels), fmt_span(t['span'])), key='%s|helper-provenance' % b.key)
+    ctx.floor(['C03'], 'W1c', 3)
+    ctx.floor(['C03'], 'W1c-call', 3)
+    # W1d: what the generic builder hands to the strategy
+    b = crate.body(GB + 'close_record_variant_with')
+    if b is None:
+        ctx.add(['C03', 'C12'], 'W1d', GB + 'close_record_variant_with', 'function not found (anchor lost)', key='anchor')
+        return
+    defs = local_defs(b)
+    calls = [(bb, t) for bb, t in b.calls() if callee_path(t, resolved=False) == T + 'builder::generic::variant::RecordVariantBuilder::build']
+    if len(calls) != 1:
+        ctx.add(['C03', 'C12'], 'W1d', b.key, 'expected exactly one call of the strategy, found %d' % len(calls), key='calls')
+        return
+    t = calls[0][1]
+
+    def taken_field(op):
+        s = trace_value(b, defs, op)
+        x = s[-1]
+        if x[0] == 'call' and callee_path(x[1]) == 'core::mem::take':
+            r = trace_value(b, defs, x[1]['args'][0])
+            y = r[-1]
+            if y[0] == 'ref' and y[2]['l'] == 1:
+                return [e.get('name') for e in y[2]['p'] if isinstance(e, dict) and 'name' in e]
+        return None
+    a2, a3 = taken_field(t['args'][2]), taken_field(t['args'][3])
+    r4 = trace_value(b, defs, t['args'][4])[-1]
+    f4 = [e.get('name') for e in r4[2]['p'] if isinstance(e, dict) and 'name' in e] if r4[0] == 'ref' and r4[2]['l'] == 1 else None
+    s1 = trace_value(b, defs, t['args'][1])[-1]
+    ok1 = s1[0] == 'call' and callee_path(s1[1]) in ('core::option::Option::<T>::unwrap_or_default',)
+    if ok1:
+        m = trace_value(b, defs, s1[1]['args'][0])[-1]
+        ok1 = m[0] == 'call' and callee_path(m[1]) == 'core::option::Option::<T>::map'
+        if ok1:
+            l = trace_value(b, defs, m[1]['args'][0])[-1]
+            ok1 = l[0] == 'call' and callee_path(l[1]) == 'core::slice::<impl [T]>::last'
+            # the mapping closure clones `.data`
+            cl = crate.closures_of(b.path)
+            okc = False
+            for c in cl:
+                for bb2, t2 in c.calls():
+                    if callee_path(t2, resolved=False) == 'core::clone::Clone::clone':
+                        pl = trace_value(c, local_defs(c), t2['args'][0])[-1]
+                        if pl[0] == 'ref' and [e.get('name') for e in pl[2]['p'] if isinstance(e, dict) and 'name' in e] == ['data']:
+                            okc = True
+            ok1 = ok1 and okc
+    if a2 != ['data_to_add'] or a3 != ['data_to_remove'] or f4 != ['datum_definitions'] or not ok1:
+        ctx.add(['C03', 'C12'], 'W1d', b.key, 'the strategy is not handed (clone of the last variant\'s data, take(data_to_add), take(data_to_remove), &mut datum_definitions): got (%s, %s, %s, %s)' % ('ok' if ok1 else '?', a2, a3, f4), key='args')
+    else:
+        ctx.inst('W1d', 'build(last.data.clone() or default, take(data_to_add), take(data_to_remove), &mut datum_definitions)')
+    ctx.floor(['C03', 'C12'], 'W1d', 1)
+
+
+# -- C13: sentinel offsets ---------------------------------------------------
+
+def truc_rule_sentinel(ctx, crate):
+    """S-SENTINEL: code that walks the raw datum collection must not read offsets."""
+    RAW = {DDC + 'iter', T + 'RecordDefinition::<D>::datum_definitions'}
+    OFFSET = NDD + '::offset'
+    n = 0
+    for b in crate.bodies:
+        if b.def_kind == 'Closure' or b.promoted is not None:
+            continue
+        group = [b] + crate.closures_of(b.path)
+        raw = [(x, t) for x in group for bb, t in x.calls() if callee_path(t) in RAW]
+        if not raw:
+            continue
+        if b.path in RAW:
+            continue
+        n += 1
+        offs = [(x, t) for x in group for bb, t in x.calls() if callee_path(t) == OFFSET]
+        direct = [(x, st) for x in group for _, _, st in x.statements() if st['k'] == 'assign' and st['rv']['k'] == 'use' and op_place(st['rv']['op']) and
+                  any(isinstance(e, dict) and e.get('adt') == NDD and e.get('name') == 'offset' for e in op_place(st['rv']['op'])['p'])]
+        ctx.inst('S-SENTINEL', '%s walks the raw datum collection; offset reads: %d' % (b.path, len(offs) + len(direct)))
+        if offs or direct:
+            where = fmt_span((offs[0][1]['span'] if offs else direct[0][1].get('span')))
+            ctx.add(['C13'], 'S-SENTINEL', b.key, 'walks every datum definition (including data that were added and removed before their variant was closed, whose offset is the placeholder usize::MAX) and reads offsets at %s: arithmetic on the placeholder overflows' % where, key='%s|offset' % b.path)
+    ctx.floor(['C13'], 'S-SENTINEL', 1)
+
+
+# -- C12: builder state machine ----------------------------------------------
+
+def switch_info(b, defs, bb):
+    """For a switch block: (source, polarity_flipped). source = ('call', term) behind the
+    discriminant, looking through `Not`, `is_some`-like wrappers are kept as calls."""
+    t = b.blocks[bb]['term']
+    if t['k'] != 'switch':
+        return None
+    flipped = False
+    cur = t['d']
+    for _ in range(8):
+        s = trace_value(b, defs, cur)
+        x = s[-1]
+        if x[0] == 'rv' and x[1]['k'] == 'un' and x[1]['op'] == 'Not':
+            flipped = not flipped
+            cur = x[1]['o']
+            continue
+        if x[0] == 'rv' and x[1]['k'] == 'discr':
+            pl = x[1]['place']
+            if not pl['p']:
+                y = trace_value(b, defs, {'copy': pl})[-1]
+                return ('discr', y, flipped)
+            return ('discr', ('place', pl), flipped)
+        return ('val', x, flipped)
+    return None
+
+
+def edge_for(b, bb, truth):
+    """target block of a boolean switch for the given truth value"""
+    t = b.blocks[bb]['term']
+    tg = dict(t['targets'])
+    if truth:
+        return tg.get(1, t['otherwise'])
+    return tg.get(0, t['otherwise']) if 0 in tg else t['otherwise']
+
+
+def self_field_of(b, defs, op):
+    """operand that is (a reborrow of) &[mut] (*_1).<fields…> -> (names, is_mut) else None"""
+    s = trace_value(b, defs, op)
+    x = s[-1]
+    if x[0] == 'ref' and x[2]['l'] == 1 and x[2]['p'] and x[2]['p'][0] == 'deref':
+        names = [e.get('name') for e in x[2]['p'][1:] if isinstance(e, dict) and 'name' in e]
+        return names, x[1] == 'mut'
+    if x[0] == 'call' and callee_path(x[1]) in ('<alloc::vec::Vec<T, A> as core::ops::deref::Deref>::deref', '<alloc::vec::Vec<T, A> as core::ops::deref::DerefMut>::deref_mut'):
+        return self_field_of(b, defs, x[1]['args'][0])
+    if x[0] == 'param' and x[1] == 1:
+        return [], None
+    return None
+
+
+def mutating_blocks(b, defs):
+    out = {}
+    for bb, blk in enumerate(b.blocks):
+        if blk['cleanup']:
+            continue
+        for st in blk['stmts']:
+            if st['k'] == 'assign' and st['place']['l'] == 1 and st['place']['p'] and st['place']['p'][0] == 'deref':
+                out[bb] = 'assignment to %s' % place_str(st['place'])
+        t = blk['term']
+        if t['k'] == 'call':
+            for a in t['args']:
+                sf = self_field_of(b, defs, a)
+                if sf is not None and sf[1]:
+                    out[bb] = '%s(&mut self.%s, ..)' % ((callee_path(t) or '?').split('::')[-1], '.'.join(sf[0]))
+    return out
+
+
+def err_blocks(b):
+    out = []
+    for bb, si, st in b.statements():
+        if st['k'] == 'assign' and st['place']['l'] == 0 and st['rv']['k'] == 'aggregate' and st['rv'].get('adt') == 'core::result::Result' and st['rv'].get('variant') == 'Err':
+            out.append(bb)
+    return out
+
+
+def truc_rule_builder(ctx, crate):
+    # B-PURE: rejected requests leave the builder untouched
+    for name, nerr in (('add_datum', 1), ('remove_datum', 3)):
+        b = crate.body(GB + name)
+        if b is None:
+            ctx.add(['C12'], 'B-PURE', GB + name, 'function not found (anchor lost)', key='anchor|%s' % name)
+            continue
+        defs = local_defs(b)
+        muts = mutating_blocks(b, defs)
+        errs = err_blocks(b)
+        for e in errs:
+            ctx.inst('B-PURE', '%s: error return at bb%d' % (name, e))
+        if len(errs) < nerr:
+            ctx.add(['C12'], 'B-PURE', b.key, '%s has %d error returns, %d were confirmed on the pinned tree: an invalid request is accepted somewhere' % (name, len(errs), nerr), key='%s|errs' % name)
+        for m, what in muts.items():
+            reach = b.reachable(m, unwind=False)
+            hit = [e for e in errs if e in reach]
+            if hit:
+                ctx.add(['C12'], 'B-PURE', b.key, '%s mutates the builder (%s in bb%d) on a path that then returns Err (bb%d): a rejected request changes the observable state' % (name, what, m, hit[0]), key='%s|mutate-then-err' % name)
+    ctx.floor(['C12'], 'B-PURE', 4)
+
+    # B-GUARD-DUP
+    b = crate.body(GB + 'add_datum')
+    if b is not None:
+        defs = local_defs(b)
+        push = [bb for bb, t in b.calls() if callee_path(t) == DDC + 'push']
+        guard = None
+        for bb in range(len(b.blocks)):
+            si = switch_info(b, defs, bb)
+            if si and si[0] == 'val' and si[1][0] == 'call' and callee_path(si[1][1]) in ('core::option::Option::<T>::is_some', 'core::option::Option::<T>::is_none'):
+                inner = trace_value(b, defs, si[1][1]['args'][0])[-1]
+                if inner[0] == 'ref':
+                    inner = trace_value(b, defs, {'copy': {'l': inner[2]['l'], 'p': [], 'ty': None}})[-1]
+                if inner[0] == 'call' and callee_path(inner[1]) == GB + 'get_current_datum_definition_by_name':
+                    is_some = callee_path(si[1][1]).endswith('is_some')
+                    name_arg = trace_value(b, defs, inner[1]['args'][1])
+                    free_truth = (not is_some) != si[2]       # truth value of the switch operand meaning "name is free"
+                    guard = (bb, edge_for(b, bb, free_truth), edge_for(b, bb, not free_truth))
+        if len(push) != 1 or guard is None:
+            ctx.add(['C12'], 'B-GUARD-DUP', b.key, 'add_datum: cannot find the single datum_definitions.push (%d) guarded by the duplicate-name lookup (%s)' % (len(push), guard), key='shape')
+        else:
+            reach = b.reachable(0, unwind=False, removed_edges=[(guard[0], guard[1])])
+            if push[0] in reach:
+                ctx.add(['C12'], 'B-GUARD-DUP', b.key, 'a datum can be pushed without the duplicate-name lookup having answered "free"', key='bypass')
+            else:
+                ctx.inst('B-GUARD-DUP', 'push is reachable only through the "name is free" edge bb%d->bb%d' % (guard[0], guard[1]))
+            # data_to_add.push(id) with id = the result of that push
+            dta = [(bb, t) for bb, t in b.calls() if callee_path(t) == 'alloc::vec::Vec::<T, A>::push' and (self_field_of(b, defs, t['args'][0]) or [None])[0] == ['data_to_add']]
+            okid = len(dta) == 1 and trace_value(b, defs, dta[0][1]['args'][1])[-1][0] == 'call' and callee_path(trace_value(b, defs, dta[0][1]['args'][1])[-1][1]) == DDC + 'push'
+            if not okid:
+                ctx.add(['C12'], 'B-GUARD-DUP', b.key, 'the id recorded as pending addition is not the id returned by datum_definitions.push', key='pending-id')
+            else:
+                ctx.inst('B-GUARD-DUP', 'data_to_add.push(id returned by datum_definitions.push)')
+    ctx.floor(['C12'], 'B-GUARD-DUP', 2)
+
+    # B-GUARD-RM
+    b = crate.body(GB + 'remove_datum')
+    if b is not None:
+        defs = local_defs(b)
+        closures = {c.path: c for c in crate.closures_of(b.path)}
+
+        def position_source(op):
+            """index operand -> which self field the `position` iterated over"""
+            x = trace_value(b, defs, op)[-1]
+            if x[0] != 'place':
+                return None
+            base = trace_value(b, defs, {'copy': {'l': x[1]['l'], 'p': [], 'ty': None}})[-1]
+            if base[0] != 'call' or not (callee_path(base[1]) or '').endswith('::position'):
+                return None
+            it = trace_value(b, defs, base[1]['args'][0])[-1]
+            if it[0] == 'ref':
+                it = trace_value(b, defs, {'copy': {'l': it[2]['l'], 'p': [], 'ty': None}})[-1]
+            if it[0] == 'call' and callee_path(it[1]) == 'core::slice::<impl [T]>::iter':
+                sf = self_field_of(b, defs, it[1]['args'][0])
+                return sf[0] if sf else None
+            return None
+        n = 0
+        for bb, t in b.calls():
+            p = callee_path(t)
+            sf = self_field_of(b, defs, t['args'][0]) if t['args'] else None
+            if p == 'alloc::vec::Vec::<T, A>::remove' and sf and sf[0] == ['data_to_add']:
+                src = position_source(t['args'][1])
+                n += 1
+                if src != ['data_to_add']:
+                    ctx.add(['C12'], 'B-GUARD-RM', b.key, 'data_to_add.remove(i) at %s with i that is not the position of the id in data_to_add (%s)' % (fmt_span(t['span']), src), key='remove-index')
+                else:
+                    ctx.inst('B-GUARD-RM', 'data_to_add.remove(position of id in data_to_add) at %s' % fmt_span(t['span']))
+            elif p == 'alloc::vec::Vec::<T, A>::push' and sf and sf[0] == ['data_to_remove']:
+                n += 1
+                # guarded by contains(&id) == false on data_to_remove
+                guard = None
+                for sb in range(len(b.blocks)):
+                    si = switch_info(b, defs, sb)
+                    if si and si[0] == 'val' and si[1][0] == 'call' and callee_path(si[1][1]) == 'core::slice::<impl [T]>::contains':
+                        rf = self_field_of(b, defs, si[1][1]['args'][0])
+                        arg = trace_value(b, defs, si[1][1]['args'][1])[-1]
+                        if rf and rf[0] == ['data_to_remove'] and arg[0] == 'ref' and arg[2]['l'] == 2:
+                            guard = (sb, edge_for(b, sb, si[2]), edge_for(b, sb, not si[2]))   # "contains" true edge / false edge
+                if guard is None:
+                    ctx.add(['C12'], 'B-GUARD-RM', b.key, 'data_to_remove.push is not guarded by data_to_remove.contains(&id)', key='contains')
+                else:
+                    reach = b.reachable(0, unwind=False, removed_edges=[(guard[0], guard[1])])
+                    if bb in reach:
+                        ctx.add(['C12'], 'B-GUARD-RM', b.key, 'an id can be pushed to data_to_remove although it is already there (removing a datum twice is accepted)', key='twice')
+                    else:
+                        ctx.inst('B-GUARD-RM', 'data_to_remove.push only on the !contains edge bb%d->bb%d' % (guard[0], guard[1]))
+                # and by "present in the last variant"
+                g2 = None
+                for sb in range(len(b.blocks)):
+                    si = switch_info(b, defs, sb)
+                    if si and si[0] == 'val' and si[1][0] == 'call' and callee_path(si[1][1]) == 'core::option::Option::<T>::is_some':
+                        inner = trace_value(b, defs, si[1][1]['args'][0])[-1]
+                        if inner[0] == 'ref':
+                            inner = trace_value(b, defs, {'copy': {'l': inner[2]['l'], 'p': [], 'ty': None}})[-1]
+                        if inner[0] == 'call' and (callee_path(inner[1]) or '').endswith('::position'):
+                            g2 = (sb, edge_for(b, sb, not si[2]))
+                if g2 is None:
+                    ctx.add(['C12'], 'B-GUARD-RM', b.key, 'data_to_remove.push is not guarded by the lookup of the id in the last variant', key='present')
+                else:
+                    reach = b.reachable(0, unwind=False, removed_edges=[g2])
+                    if bb in reach:
+                        ctx.add(['C12'], 'B-GUARD-RM', b.key, 'an id that is not in the last variant can be recorded as removed', key='absent')
+                    else:
+                        ctx.inst('B-GUARD-RM', 'data_to_remove.push only when the id is in the last variant (edge bb%d->bb%d)' % g2)
+        if n < 3:
+            ctx.add(['C12'], 'B-GUARD-RM', b.key, 'remove_datum performs %d list updates, 3 were confirmed on the pinned tree' % n, key='count')
+    ctx.floor(['C12'], 'B-GUARD-RM', 4)
+
+    # B-NOOP
+    b = crate.body(GB + 'close_record_variant_with')
+    if b is not None:
+        defs = local_defs(b)
+        g = None
+        for sb in range(len(b.blocks)):
+            si = switch_info(b, defs, sb)
+            if si and si[0] == 'val' and si[1][0] == 'call' and callee_path(si[1][1]) == GB + 'has_pending_changes':
+                g = (sb, edge_for(b, sb, not si[2]), edge_for(b, sb, si[2]))    # pending edge, idle edge
+        pushes = [bb for bb, t in b.calls() if callee_path(t) == 'alloc::vec::Vec::<T, A>::push' and (self_field_of(b, defs, t['args'][0]) or [None])[0] == ['variants']]
+        builds = [bb for bb, t in b.calls() if callee_path(t, resolved=False) == T + 'builder::generic::variant::RecordVariantBuilder::build']
+        if g is None or len(pushes) != 1 or len(builds) != 1:
+            ctx.add(['C12'], 'B-NOOP', b.key, 'cannot find has_pending_changes guard / variants.push / strategy call (%s, %s, %s)' % (g, pushes, builds), key='shape')
+        else:
+            idle = b.reachable(g[2], unwind=False, removed_blocks=[g[0]])
+            if pushes[0] in idle or builds[0] in idle:
+                ctx.add(['C12'], 'B-NOOP', b.key, 'closing with no pending change can still push a new variant / run the strategy', key='idle-push')
+            else:
+                ctx.inst('B-NOOP', 'variants.push and the strategy call are unreachable from the "no pending change" edge bb%d->bb%d' % (g[0], g[2]))
+            reach = b.reachable(0, unwind=False, removed_edges=[(g[0], g[1])])
+            if pushes[0] in reach:
+                ctx.add(['C12'], 'B-NOOP', b.key, 'variants.push is reachable without passing the pending-changes test', key='bypass')
+            # the new variant: id = variants.len() read before the push, data = strategy result
+            agg = [st for _, _, st in b.statements() if st['k'] == 'assign' and st['rv']['k'] == 'aggregate' and st['rv'].get('adt') == T + 'RecordVariant']
+            ok = False
+            if len(agg) == 1:
+                vals = dict(zip(agg[0]['rv']['field_names'], agg[0]['rv']['fields']))
+                i = trace_value(b, defs, vals['id'])[-1]
+                d = trace_value(b, defs, vals['data'])[-1]
+                ok = i[0] == 'call' and 'into' in (callee_path(i[1]) or '') and d[0] == 'call' and callee_path(d[1], resolved=False) == T + 'builder::generic::variant::RecordVariantBuilder::build'
+                if ok:
+                    ln = trace_value(b, defs, i[1]['args'][0])[-1]
+                    ok = ln[0] == 'call' and callee_path(ln[1]) == 'alloc::vec::Vec::<T, A>::len' and (self_field_of(b, defs, ln[1]['args'][0]) or [None])[0] == ['variants']
+            if not ok:
+                ctx.add(['C12'], 'B-NOOP', b.key, 'the pushed variant is not {id: variants.len(), data: strategy result}', key='variant-literal')
+            else:
+                ctx.inst('B-NOOP', 'pushed variant = {id: variants.len(), data: strategy result}')
+    ctx.floor(['C12'], 'B-NOOP', 2)
+
+    # B-BUILD
+    b = crate.body(GB + 'build')
+    if b is not None:
+        defs = local_defs(b)
+        aggs = [bb for bb, si, st in b.statements() if st['k'] == 'assign' and st['rv']['k'] == 'aggregate' and st['rv'].get('adt') == T + 'RecordDefinition']
+        guards = {}
+        for sb in range(len(b.blocks)):
+            si = switch_info(b, defs, sb)
+            if si and si[0] == 'val' and si[1][0] == 'call' and callee_path(si[1][1]) == 'alloc::vec::Vec::<T, A>::is_empty':
+                sf = self_field_of(b, defs, si[1][1]['args'][0])
+                if sf is None:
+                    # `self` by value: &_1.field
+                    r = trace_value(b, defs, si[1][1]['args'][0])[-1]
+                    if r[0] == 'ref' and r[2]['l'] == 1:
+                        sf = ([e.get('name') for e in r[2]['p'] if isinstance(e, dict) and 'name' in e], False)
+                if sf:
+                    guards[tuple(sf[0])] = (sb, edge_for(b, sb, not si[2]))     # the "is empty" edge
+        if len(aggs) != 1 or set(guards) != {('data_to_add',), ('data_to_remove',)}:
+            ctx.add(['C12'], 'B-BUILD', b.key, 'build(): cannot find the RecordDefinition literal guarded by both emptiness tests (%s)' % sorted(guards), key='shape')
+        else:
+            for f, (sb, e) in guards.items():
+                reach = b.reachable(0, unwind=False, removed_edges=[(sb, e)])
+                if aggs[0] in reach:
+                    ctx.add(['C12'], 'B-BUILD', b.key, 'build() can produce a definition although %s is not empty (unclosed changes are silently dropped)' % f[0], key='bypass-%s' % f[0])
+                else:
+                    ctx.inst('B-BUILD', 'RecordDefinition is built only when %s is empty' % f[0])
+    ctx.floor(['C12'], 'B-BUILD', 2)
+
+    # B-APPEND
+    b = crate.body(DDC + 'push')
+    if b is not None:
+        defs = local_defs(b)
+        pushes = [(bb, t) for bb, t in b.calls() if callee_path(t) == 'alloc::vec::Vec::<T, A>::push']
+        ok = len(pushes) == 1
+        if ok:
+            # the pushed definition's id = DatumId::from(self.data.len()), len read before the push
+            ids = [t for bb, t in b.calls() if (callee_path(t, resolved=False) or '').endswith('From::from') or 'into' in (callee_path(t, resolved=False) or '')]
+            lens = [(bb, t) for bb, t in b.calls() if callee_path(t) == 'alloc::vec::Vec::<T, A>::len']
+            dom = b.dominators(unwind=False)
+            ok = len(lens) == 1 and lens[0][0] in dom[pushes[0][0]] and len(ids) >= 1
+            if ok:
+                src = trace_value(b, defs, ids[0]['args'][0])[-1]
+                ok = src[0] == 'call' and callee_path(src[1]) == 'alloc::vec::Vec::<T, A>::len'
+                ret = trace_value(b, defs, {'copy': {'l': 0, 'p': [], 'ty': None}})[-1]
+                ok = ok and ret[0] == 'call' and ret[1] is ids[0]
+        if not ok:
+            ctx.add(['C12'], 'B-APPEND', DDC + 'push', 'DatumDefinitionCollection::push does not append with id = previous length', key='push')
+        else:
+            ctx.inst('B-APPEND', 'push: id = DatumId::from(data.len()) read before Vec::push; that id is returned')
+    else:
+        ctx.add(['C12'], 'B-APPEND', DDC + 'push', 'function not found (anchor lost)', key='anchor')
+    # other mutable uses of DatumDefinitionCollection.data anywhere
+    COLL = T + 'DatumDefinitionCollection'
+    for x in crate.bodies:
+        for bb, si, st in x.statements():
+            if st['k'] == 'assign' and st['rv']['k'] in ('ref', 'rawptr') and (st['rv'].get('bk') == 'mut' or st['rv'].get('mut')):
+                if any(isinstance(e, dict) and e.get('adt') == COLL and e.get('name') == 'data' for e in st['rv']['place']['p']):
+                    if x.path in (DDC + 'push', DDC + 'get_mut'):
+                        ctx.inst('B-APPEND', '%s borrows the collection\'s vector mutably' % x.path.split('::')[-1])
+                    else:
+                        ctx.add(['C12'], 'B-APPEND', x.key, 'the datum collection\'s vector is borrowed mutably at %s outside push/get_mut (ids could be reused or definitions dropped)' % fmt_span(st.get('span')), key='%s|mut' % x.key)
+            if st['k'] == 'assign' and any(isinstance(e, dict) and e.get('adt') == COLL and e.get('name') == 'data' for e in st['place']['p']) and x.path != '<' + COLL + '<D> as core::default::Default>::default':
+                ctx.add(['C12'], 'B-APPEND', x.key, 'the datum collection\'s vector is overwritten at %s' % fmt_span(st.get('span')), key='%s|assign' % x.key)
+    ctx.floor(['C12'], 'B-APPEND', 3)
+
+    # B-DELEG: the native builder only delegates
+    for name in ('remove_datum', 'close_record_variant_with', 'build', 'get_current_data', 'get_current_datum_definition_by_name', 'get_variant_datum_definition_by_name'):
+        b = crate.body(NB + name)
+        if b is None:
+            ctx.add(['C12'], 'B-DELEG', NB + name, 'function not found (anchor lost)', key='anchor|%s' % name)
+            continue
+        calls = [t for bb, t in b.calls() if not b.blocks[bb]['cleanup']]
+        ok = len(calls) == 1 and callee_path(calls[0]) == GB + name
+        if ok:
+            for i, a in enumerate(calls[0]['args']):
+                s = trace_value(b, local_defs(b), a)[-1]
+                if i == 0:
+                    ok = ok and ((s[0] == 'ref' and s[2]['l'] == 1 and [e.get('name') for e in s[2]['p'] if isinstance(e, dict) and 'name' in e] == ['inner']) or
+                                 (s[0] == 'place' and s[1]['l'] == 1 and [e.get('name') for e in s[1]['p'] if isinstance(e, dict) and 'name' in e] == ['inner']))
+                else:
+                    ok = ok and s == ('param', i + 1)
+        if not ok:
+            ctx.add(['C12'], 'B-DELEG', b.key, 'NativeRecordDefinitionBuilder::%s is not a plain delegation to the generic builder' % name, key='deleg|%s' % name)
+        else:
+            ctx.inst('B-DELEG', '%s delegates to the generic builder with its arguments passed through' % name)
+    # the add_* entry points call inner.add_datum exactly once with the caller's name
+    for name in ('add_datum', 'add_datum_allow_uninit', 'add_datum_override', 'add_dynamic_datum', 'copy_datum'):
+        b = crate.body(NB + name)
+        if b is None:
+            ctx.add(['C12'], 'B-DELEG', NB + name, 'function not found (anchor lost)', key='anchor|%s' % name)
+            continue
+        calls = [t for bb, t in b.calls() if callee_path(t) == GB + 'add_datum']
+        if len(calls) != 1:
+            ctx.add(['C12'], 'B-DELEG', b.key, '%s calls the generic add_datum %d times' % (name, len(calls)), key='deleg|%s' % name)
+        else:
+            ctx.inst('B-DELEG', '%s -> inner.add_datum once' % name)
+    ctx.floor(['C12'], 'B-DELEG', 11)
+
+
+# -- C20: replaying a definition ----------------------------------------------
+
+def sources(b, defs, op, depth=0, seen=None):
+    """All terminal sources of an operand, following moves, several definitions and
+    tuple-field projections of locally built tuples. Returns a list of terminals as in trace_value."""
+    seen = seen if seen is not None else set()
+    out = []
+    st = trace_value(b, defs, op)
+    t = st[-1]
+    if depth > 10:
+        return [t]
+    if t[0] == 'multi':
+        l = t[1]
+        if l in seen:
+            return []
+        seen.add(l)
+        for d in defs.get(l, []):
+            if d[0] == 'call':
+                out.append(('call', d[2]))
+            else:
+                rv = d[3]['rv']
+                if rv['k'] == 'use':
+                    out += sources(b, defs, rv['op'], depth + 1, seen)
+                else:
+                    out.append(('rv', rv))
+        return out
+    if t[0] == 'place':
+        pl = t[1]
+        if len(pl['p']) == 1 and isinstance(pl['p'][0], dict) and 'f' in pl['p'][0] and pl['p'][0].get('tuple'):
+            k = pl['p'][0]['f']
+            for d in defs.get(pl['l'], []):
+                if d[0] == 'stmt' and d[3]['rv']['k'] == 'aggregate' and d[3]['rv']['ak'] == 'tuple':
+                    out += sources(b, defs, d[3]['rv']['fields'][k], depth + 1, seen)
+                else:
+                    out.append(('opaque-tuple', pl))
+            return out
+    return [t]
+
+
+def truc_rule_replay(ctx, crate):
+    path = T + 'convert::convert_record_definition'
+    b = crate.body(path)
+    if b is None:
+        ctx.add(['C20'], 'V-ORDER', path, 'function not found (anchor lost)', key='anchor')
+        return
+    defs = local_defs(b)
+    ROLE = {2: 'add', 3: 'remove', 4: 'close'}
+    cb = {'add': [], 'remove': [], 'close': []}
+    for bb, t in b.calls():
+        d = callee_path(t, resolved=False) or ''
+        if d.startswith('core::ops::function::Fn') and t['args']:
+            r = trace_value(b, defs, t['args'][0])[-1]
+            if r[0] == 'ref' and not r[2]['p'] and r[2]['l'] in ROLE:
+                cb[ROLE[r[2]['l']]].append((bb, t))
+    if len(cb['add']) != 1 or len(cb['remove']) != 1 or len(cb['close']) != 1:
+        ctx.add(['C20'], 'V-ORDER', b.key, 'expected one call site each of the add / remove / close callbacks, found %s' % {k: len(v) for k, v in cb.items()}, key='sites')
+        return
+    (bb_add, t_add), (bb_rm, t_rm), (bb_close, t_close) = cb['add'][0], cb['remove'][0], cb['close'][0]
+    # the outer loop head: `next` on the iterator over quirky_definition.variants()
+    head = None
+    for bb, t in b.calls():
+        if (callee_path(t) or '').endswith('Iterator>::next'):
+            tys = callee_ty_args(t, resolved=False)
+            if tys and 'RecordVariant' in tys[0]:
+                head = bb
+    if head is None:
+        ctx.add(['C20'], 'V-ORDER', b.key, 'cannot find the loop over the source variants', key='loop')
+        return
+
+    def reach_wo(start, *without):
+        return b.reachable(start, unwind=False, removed_blocks=list(without))
+    # within one iteration: remove* -> add* -> close -> variants_mapping.insert
+    after_add = reach_wo(bb_add, head)
+    after_close = reach_wo(bb_close, head)
+    if bb_rm in after_add:
+        ctx.add(['C20'], 'V-ORDER', fmt_span(t_rm['span']), 'a removal can be replayed after an addition of the same variant (a re-used name would be rejected, or the wrong datum removed)', key='rm-after-add')
+    if bb_rm in after_close or bb_add in after_close:
+        ctx.add(['C20'], 'V-ORDER', fmt_span(t_close['span']), 'additions / removals can be replayed after the variant was closed', key='after-close')
+    # close is on every path of an iteration that comes back to the head
+    some_edge = None
+    for v, tgt in b.blocks[b.blocks[head]['term']['t']]['term'].get('targets', []) if b.blocks[head]['term']['t'] is not None else []:
+        if v == 1:
+            some_edge = tgt
+    if some_edge is None:
+        ctx.add(['C20'], 'V-ORDER', b.key, 'cannot find the `Some(variant)` edge of the loop', key='some-edge')
+        return
+    if head in reach_wo(some_edge, bb_close):
+        ctx.add(['C20'], 'V-ORDER', b.key, 'an iteration over a source variant can complete without closing a target variant', key='close-skipped')
+    # exactly once: the close block cannot reach itself without passing the head
+    succ = b.blocks[bb_close]['term']['t']
+    if succ is not None and bb_close in reach_wo(succ, head):
+        ctx.add(['C20'], 'V-ORDER', b.key, 'the close callback can run twice for one source variant', key='close-twice')
+    ctx.inst('V-ORDER', 'per source variant: remove (bb%d) before add (bb%d) before exactly one close (bb%d)' % (bb_rm, bb_add, bb_close))
+
+    # V-MAP
+    ins_d = [(bb, t) for bb, t in b.calls() if (callee_path(t) or '').endswith('BTreeMap::<K, V, A>::insert') and callee_ty_args(t)[:1] == [T + 'DatumId']]
+    ins_v = [(bb, t) for bb, t in b.calls() if (callee_path(t) or '').endswith('BTreeMap::<K, V, A>::insert') and callee_ty_args(t)[:1] == [T + 'RecordVariantId']]
+    # removed id goes through the id map
+    tup = trace_value(b, defs, t_rm['args'][1])[-1]
+    ok = tup[0] == 'rv' and tup[1].get('ak') == 'tuple' and len(tup[1]['fields']) == 2
+    rm_src = None
+    if ok:
+        s = trace_value(b, defs, tup[1]['fields'][1])[-1]
+        # copy (*_69) where _69 = Index::index(&datum_ids_mapping, &d)
+        if s[0] == 'place' and s[1]['p'] == ['deref']:
+            s2 = trace_value(b, defs, {'copy': {'l': s[1]['l'], 'p': [], 'ty': None}})[-1]
+            if s2[0] == 'call' and (callee_path(s2[1], resolved=False) or '').endswith('Index::index') and 'BTreeMap<' in (callee_ty_args(s2[1], resolved=False) or [''])[0]:
+                rm_src = s2[1]
+    if rm_src is None:
+        ctx.add(['C20'], 'V-MAP', fmt_span(t_rm['span']), 'the id handed to the remove callback is not looked up in the source-to-target id map (a source id is used as a target id)', key='rm-unmapped')
+    else:
+        ctx.inst('V-MAP', 'remove(ctx, datum_ids_mapping[&d])')
+    # add: datum = &quirky_definition[d]; then datum_ids_mapping.insert(d, returned id)
+    tup = trace_value(b, defs, t_add['args'][1])[-1]
+    d_local = None
+    if tup[0] == 'rv' and tup[1].get('ak') == 'tuple' and len(tup[1]['fields']) == 2:
+        s = trace_value(b, defs, tup[1]['fields'][1])[-1]
+        if s[0] == 'call' and (callee_path(s[1], resolved=False) or '').endswith('Index::index'):
+            base = trace_value(b, defs, s[1]['args'][0])[-1]
+            if base[0] == 'param' and base[1] == 1:
+                dsrc = trace_value(b, defs, s[1]['args'][1])
+                d_local = op_local(s[1]['args'][1])
+                dd = single_def(defs, d_local) if d_local is not None else None
+                if dd and dd[0] == 'stmt' and dd[3]['rv']['k'] == 'use' and op_local(dd[3]['rv']['op']) is not None:
+                    d_local = op_local(dd[3]['rv']['op'])
+    if d_local is None:
+        ctx.add(['C20'], 'V-MAP', fmt_span(t_add['span']), 'the add callback is not handed `&quirky_definition[d]`', key='add-datum')
+    else:
+        ctx.inst('V-MAP', 'add(ctx, &quirky_definition[d])')
+        ok = False
+        if len(ins_d) == 1:
+            k_l = op_local(ins_d[0][1]['args'][1])
+            kd = single_def(defs, k_l) if k_l is not None else None
+            k_src = op_local(kd[3]['rv']['op']) if kd and kd[0] == 'stmt' and kd[3]['rv']['k'] == 'use' else k_l
+            v = trace_value(b, defs, ins_d[0][1]['args'][2])[-1]
+            v_ok = False
+            if v[0] == 'place' and any(isinstance(e, dict) and e.get('name') == 'Continue' for e in v[1]['p']):
+                br = trace_value(b, defs, {'copy': {'l': v[1]['l'], 'p': [], 'ty': None}})[-1]
+                if br[0] == 'call' and (callee_path(br[1]) or '').endswith('Try>::branch'):
+                    src = trace_value(b, defs, br[1]['args'][0])[-1]
+                    v_ok = src[0] == 'call' and src[1] is t_add
+            ok = (k_src == d_local) and v_ok and bb_add in b.dominators(unwind=False).get(ins_d[0][0], set())
+        if not ok:
+            ctx.add(['C20'], 'V-MAP', b.key, 'after an addition the id map is not updated with (source id of the added datum -> id returned by the add callback)', key='add-map')
+        else:
+            ctx.inst('V-MAP', 'datum_ids_mapping.insert(d, id returned by add)')
+    ok = False
+    if len(ins_v) == 1:
+        k = trace_value(b, defs, ins_v[0][1]['args'][1])[-1]
+        v = trace_value(b, defs, ins_v[0][1]['args'][2])[-1]
+        item = None
+        # the loop item: (_16 as Some).0 of the variants iterator's next
+        if k[0] == 'call' and callee_path(k[1]) == T + 'RecordVariant::id':
+            it = trace_value(b, defs, k[1]['args'][0])[-1]
+            if it[0] == 'place' and any(isinstance(e, dict) and e.get('name') == 'Some' for e in it[1]['p']):
+                nx = trace_value(b, defs, {'copy': {'l': it[1]['l'], 'p': [], 'ty': None}})[-1]
+                item = nx[0] == 'call' and b.blocks[head]['term'] is nx[1]
+        ok = bool(item) and v[0] == 'call' and v[1] is t_close and bb_close in b.dominators(unwind=False).get(ins_v[0][0], set())
+    if not ok:
+        ctx.add(['C20'], 'V-MAP', b.key, 'the variant map does not receive (id of the source variant -> id returned by the close callback) once per source variant', key='variant-map')
+    else:
+        ctx.inst('V-MAP', 'variants_mapping.insert(variant.id(), id returned by close)')
+    # returned map is variants_mapping
+    # V-DELTA: what is added / removed per variant
+    def data_of(op):
+        """collect(RecordVariant::data(x)) -> 'cur' | 'prev' | None"""
+        s = trace_value(b, defs, op)[-1]
+        if s[0] == 'ref' and not s[2]['p']:
+            s = trace_value(b, defs, {'copy': s[2]})[-1]
+        if s[0] == 'call' and (callee_path(s[1], resolved=False) or '').endswith('Iterator::collect'):
+            dt = trace_value(b, defs, s[1]['args'][0])[-1]
+            if dt[0] == 'call' and callee_path(dt[1]) == T + 'RecordVariant::data':
+                x = trace_value(b, defs, dt[1]['args'][0])[-1]
+                if x[0] == 'place' and any(isinstance(e, dict) and e.get('name') == 'Some' for e in x[1]['p']):
+                    nx = trace_value(b, defs, {'copy': {'l': x[1]['l'], 'p': [], 'ty': None}})
+                    if nx[-1][0] == 'call' and b.blocks[head]['term'] is nx[-1][1]:
+                        return 'cur'
+                    return 'prev'
+        return None
+
+    retained = {}     # local -> (base, against)
+    closures = {c.path: c for c in crate.closures_of(path)}
+    for bb, t in b.calls():
+        if callee_path(t) == 'alloc::vec::Vec::<T, A>::retain':
+            recv = trace_value(b, defs, t['args'][0])[-1]
+            cl = trace_value(b, defs, t['args'][1])[-1]
+            if recv[0] != 'ref' or recv[2]['p'] or cl[0] != 'rv' or cl[1].get('ak') != 'closure':
+                continue
+            l = recv[2]['l']
+            base = None
+            for d in defs.get(l, []):
+                if d[0] == 'call' and callee_path(d[2], resolved=False) == 'core::clone::Clone::clone':
+                    base = data_of(d[2]['args'][0])
+            against = data_of(cl[1]['fields'][0]) if cl[1]['fields'] else None
+            # closure body: !contains(captured, d)
+            cbody = closures.get(cl[1]['closure'])
+            neg = False
+            if cbody is not None:
+                cd = local_defs(cbody)
+                r = trace_value(cbody, cd, {'copy': {'l': 0, 'p': [], 'ty': None}})[-1]
+                if r[0] == 'rv' and r[1]['k'] == 'un' and r[1]['op'] == 'Not':
+                    inner = trace_value(cbody, cd, r[1]['o'])[-1]
+                    neg = inner[0] == 'call' and (callee_path(inner[1]) or '').endswith('::contains')
+            retained[l] = (base, against, neg)
+    def kind_of(op):
+        outs = set()
+        for s in sources(b, defs, op):
+            if s[0] == 'multi' and s[1] in retained:
+                outs.add(retained[s[1]])
+            elif s[0] == 'call' and not s[1]['dest']['p'] and s[1]['dest']['l'] in retained:
+                outs.add(retained[s[1]['dest']['l']])
+            elif s[0] == 'call' and (callee_path(s[1], resolved=False) or '').endswith('Iterator::collect'):
+                outs.add(('all', data_of({'copy': {'l': s[1]['dest']['l'], 'p': [], 'ty': None}})))
+            elif s[0] == 'call' and (callee_path(s[1]) or '').startswith('alloc::vec::Vec::<T>::new'):
+                outs.add(('empty',))
+            else:
+                outs.add(('?', str(s[0])))
+        return outs
+
+    def loop_collection(t_cb):
+        """the collection iterated by the loop containing the callback: into_iter arg of the next() that dominates it"""
+        dom = b.dominators(unwind=False).get([bb for bb, t in b.calls() if t is t_cb][0], set())
+        best = None
+        for bb, t in b.calls():
+            if bb in dom and (callee_path(t) or '').endswith('Iterator>::next') and bb != head:
+                best = t
+        if best is None:
+            return None
+        it = trace_value(b, defs, best['args'][0])[-1]
+        if it[0] == 'ref' and not it[2]['p']:
+            srcs = sources(b, defs, {'copy': it[2]})
+            for s in srcs:
+                if s[0] == 'call' and 'into_iter' in (callee_path(s[1]) or ''):
+                    return s[1]['args'][0]
+        return None
+    add_coll, rm_coll = loop_collection(t_add), loop_collection(t_rm)
+    want_add = {('cur', 'prev', True), ('all', 'cur')}
+    want_rm = {('prev', 'cur', True), ('empty',)}
+    got_add = kind_of(add_coll) if add_coll else {('?',)}
+    got_rm = kind_of(rm_coll) if rm_coll else {('?',)}
+    if got_add != want_add:
+        ctx.add(['C20'], 'V-DELTA', b.key, 'the data replayed as additions are %s; expected (current variant minus previous variant) or, for the first variant, all of it' % sorted(map(str, got_add)), key='delta-add')
+    else:
+        ctx.inst('V-DELTA', 'additions = new \\ old (first variant: everything)')
+    if got_rm != want_rm:
+        ctx.add(['C20'], 'V-DELTA', b.key, 'the data replayed as removals are %s; expected (previous variant minus current variant) or nothing for the first variant' % sorted(map(str, got_rm)), key='delta-rm')
+    else:
+        ctx.inst('V-DELTA', 'removals = old \\ new (first variant: none)')
+    # prev_variant is updated to the loop item at the end of each iteration
+    prev_ok = False
+    for bb, si, st in b.statements():
+        if st['k'] == 'assign' and st['rv']['k'] == 'aggregate' and st['rv'].get('adt') == 'core::option::Option' and st['rv'].get('variant') == 'Some' and 'RecordVariant' in (st['place'].get('ty') or ''):
+            if bb in after_close:
+                prev_ok = True
+    if not prev_ok:
+        ctx.add(['C20'], 'V-DELTA', b.key, 'the previous-variant reference is not advanced after closing', key='prev-advance')
+    else:
+        ctx.inst('V-DELTA', 'prev_variant = Some(variant) after close')
+    # V-ERR: callback errors are propagated: each add/remove result goes through `?` (Try::branch) whose Break edge returns
+    for role, (bbx, tx) in (('add', cb['add'][0]), ('remove', cb['remove'][0])):
+        used = False
+        for bb, t in b.calls():
+            if (callee_path(t) or '').endswith('Try>::branch'):
+                s = trace_value(b, defs, t['args'][0])[-1]
+                if s[0] == 'call' and s[1] is tx:
+                    used = True
+        if not used:
+            ctx.add(['C20'], 'V-ERR', fmt_span(tx['span']), 'the result of the %s callback is not propagated with `?`: a rejected request is ignored and the target silently diverges from the source' % role, key='err-%s' % role)
+        else:
+            ctx.inst('V-ERR', '%s callback result propagated with ?' % role)
+    ctx.floor(['C20'], 'V-ORDER', 1)
+    ctx.floor(['C20'], 'V-MAP', 4)
+    ctx.floor(['C20'], 'V-DELTA', 3)
+    ctx.floor(['C20'], 'V-ERR', 2)
